@@ -534,6 +534,9 @@ def generate():
     from .translate_con import generate_con
 
     status.update(generate_con(gen))
+    from .translate_spl import generate_spl
+
+    status.update(generate_spl(gen))
     return status
 
 
